@@ -383,8 +383,8 @@ pub fn recvstream_received_reset_native(mode: u8) -> u32 {
 }
 
 /// Native replay body for the E2 query `e2_streams_retransmit` (C01), on a real `StreamsState`: 3000 bytes are
-/// written to a stream.  mode 0: the first packet's worth is sent, the application calls `finish()` (the FIN is
-/// now owed but not yet sent), and then that first frame - which carried no FIN - is declared lost.  mode 1:
+/// written to a stream.  mode 0: all of it is sent, the application calls `finish()` (a FIN-only frame is now owed
+/// but not yet sent), and then the first frame - which carried no FIN - is declared lost.  mode 1:
 /// everything including the FIN is sent and the FIN-carrying frame is lost.  In both cases what is sent
 /// afterwards must cover the lost range and end with the FIN: the receiver must learn the end of the stream.
 pub fn retransmit_fin_native(mode: u8) -> u32 {
@@ -415,8 +415,9 @@ pub fn retransmit_fin_native(mode: u8) -> u32 {
     };
     let lost;
     if mode == 0 {
-        send_some(&mut st, &mut sent, 1);
-        assert!(sent.len() == 1 && !sent[0].fin && sent[0].offsets.end < 3000);
+        // all data is on the wire (no FIN yet: the application has not finished the stream)
+        send_some(&mut st, &mut sent, 6);
+        assert!(sent.len() >= 3 && sent.iter().all(|m| !m.fin) && sent.last().map(|m| m.offsets.end) == Some(3000));
         let mut ss = SendStream { id, state: &mut st, pending: &mut pending, conn_state: &conn_state };
         ss.finish().expect("finish succeeds");
         lost = sent[0].clone();
@@ -434,7 +435,7 @@ pub fn retransmit_fin_native(mode: u8) -> u32 {
     send_some(&mut st, &mut sent, 8);
     let after = &sent[already..];
     assert!(after.iter().any(|m| m.offsets.start <= lost.offsets.start && (m.offsets.end >= lost.offsets.end || after.iter().any(|n| n.offsets.end >= lost.offsets.end))), "the lost range was not sent again");
-    assert!(sent.iter().skip(if mode == 0 { 1 } else { already }).any(|m| m.fin && m.offsets.end == 3000), "the end of the stream is never (re)announced: the receiver waits forever");
+    assert!(after.iter().any(|m| m.fin && m.offsets.end == 3000), "the end of the stream is never (re)announced: the receiver waits forever");
     1 + mode as u32
 }
 
